@@ -388,6 +388,19 @@ static void c17() {
       }
     }
   }
+  // the same helpers from dates whose fields are each inside their own interval but whose day the month does not have
+  // (Feb 30, Apr 31: what zoned_date_time_mutation::incrementDay produces, day cycling 1..31 whatever the month): the fields
+  // stay inside their documented intervals (month 1..12, day 1..31); no claim about which date comes out
+  for (int y = 1873; y <= 2127; y++) for (unsigned m = 1; m <= 12; m++) for (unsigned d = oracle_dim(y, m) + 1; d <= 31; d++) {
+    LocalDate a = LocalDate::forComponents((int16_t) y, (uint8_t) m, (uint8_t) d), b = a;
+    local_date_mutation::incrementOneDay(a);
+    local_date_mutation::decrementOneDay(b);
+    CNT.add("c17.date_mutation_cases_from_days_the_month_does_not_have", 2);
+    if (a.month() < 1 || a.month() > 12 || a.day() < 1 || a.day() > 31 || b.month() < 1 || b.month() > 12 || b.day() < 1 || b.day() > 31) {
+      J j; j.str("from", fmtDate(y, m, d)).num("inc_month", a.month()).num("inc_day", a.day()).num("dec_month", b.month()).num("dec_day", b.day());
+      witness("c17:date-mutation-range-from-overlong-day", "incrementOneDay/decrementOneDay from a day the month does not have leaves month 1..12 / day 1..31", j);
+    }
+  }
   // ZonedDateTime increment helpers from every byte value
   TimeZone utc = TimeZone::forUtc();
   for (unsigned v = 0; v < 256; v++) {
